@@ -10,6 +10,9 @@ use fv_harness::common::*;
 use std::collections::{BTreeSet, HashMap, HashSet};
 use write_fonts::verif_hooks::{self as hooks, LinkSpec, NodeSpec, ObjView, VGraph};
 
+#[path = "c05/tw.rs"]
+mod tw;
+
 // ---------------------------------------------------------------------------------------------
 // specs
 
@@ -1741,6 +1744,11 @@ fn run(cfg: &Config, s: &mut Session) {
     // 6. real tables that force splitting / promotion
     if on("real") {
         real::run(s, cfg.thorough());
+    }
+
+    // 7. the C04 ⇄ C05 bridge: value trees through the real TableWriter / ObjectStore (c05/tw.rs)
+    if on("tw") {
+        tw::run(cfg, s, &mut rng);
     }
 }
 
